@@ -378,6 +378,22 @@ func TestC16Histories(t *testing.T) {
 				m.Remove(n)
 				hist = append(hist, "remove")
 			},
+			"attach-aux": func(t *rapid.T) {
+				// another program (the schema reserves the lines after the first for auxiliary data such as second factors) appends lines to a record
+				n := user(t)
+				u := m.Users[n]
+				if u == nil {
+					t.Skip("no such user")
+				}
+				f, err := os.OpenFile(fileOf(base, n, u.Admin), os.O_APPEND|os.O_WRONLY, 0)
+				if err != nil {
+					t.Fatalf("VERIF-INFRA %v", err)
+				}
+				f.WriteString(rapid.SampledFrom([]string{"totp: JBSWY3DPEHPK3PXP\n", "u2f: AAAA:BBBB\ntotp: x\n", "aux without newline"}).Draw(t, "auxline"))
+				f.Close()
+				vlib.Class("history:record-with-auxiliary-lines")
+				hist = append(hist, "attach-aux")
+			},
 			"switchdefault": func(t *rapid.T) {
 				cfg.Default = cfg.Sets[rapid.IntRange(0, len(cfg.Sets)-1).Draw(t, "nd")].ID
 				var err error
